@@ -26,6 +26,8 @@ pub struct NodeCfg {
 	/// node, to which the restart generation is added. Derived from (run, node) so that a run is a
 	/// pure function of its seed.
 	pub epoch: u64,
+	/// run a MonitorUpdatingPersister with this `maximum_pending_updates` next to the model disk (C19)
+	pub mup_max_pending: Option<u64>,
 }
 
 pub struct Node {
@@ -75,6 +77,9 @@ impl Node {
 		let params = ChainParameters { network: Network::Regtest, best_block: best };
 		let mgr = ChannelManager::new(fee.clone(), watch.clone(), bcast.clone(), Arc::new(NoRouter), Arc::new(NoRouter), logger.clone(), keys.clone(), keys.clone(), keys.clone(), cfg.user.clone(), params, 1_700_000_000);
 		let id = mgr.get_our_node_id();
+		if let Some(mp) = cfg.mup_max_pending {
+			*persister.shadow.lock().unwrap() = Some(Arc::new(crate::mupshadow::MupShadow::new(idx, &cfg, fee_now, mp)));
+		}
 		Node { idx, cfg, mgr, mon, watch, keys, persister, bcast, fee, logger, id, snapshots: vec![], generation: 0 }
 	}
 
